@@ -275,6 +275,9 @@ Definition transaction_start : SM unit :=
   (match max_file_seg_len (hdr_of c TOWARDS_RECEIVER) (r_max_packet r) with
    | None => raise E_VALUE
    | Some derived =>
+       (* the EOF PDU has to fit as well: header, directive code, condition code, checksum, file size, PDU CRC (F19 repair) *)
+       let h := hdr_of c TOWARDS_RECEIVER in
+       if r_max_packet r <? hdr_len h + 1 + 1 + 4 + fss_len h + crc_len h then raise E_VALUE else
        let seg := match r_max_seg r with
                   | Some m => if m <? derived then m else derived
                   | None => derived end in
